@@ -281,3 +281,6 @@ def run(ctx):
     ctx.run_rule("R15.2", "TestCaseError::Skipped only in the test command: all test cases in the Skipped arm, the unexecuted remainder in the Timeout arm [E-SITE]", r15_2, floor=3)
     ctx.run_rule("R15.3", "the Skipped arm touches only count_skipped and continues with the next document [E-PATH]", r15_3, floor=2)
     ctx.run_rule("R15.4", "skip code default: unwrap_or(DEFAULT_SKIP_DOCUMENT_CODE) == 80 [E-TABLE]", r15_4, floor=2)
+    from . import c16
+    ctx.run_rule("R15.5", "the skip code in effect is the test case's own one when it sets one: `skip_document_code` is merged receiver-first, unconditionally (a value equal to the default is a value) (shared with C16 R16.1) [E-FLOW]",
+                 lambda c: c16._merge_fields(c, c.prog.fn("TestCaseConfig::with_defaults_from"), "TestCaseConfig", only={"skip_document_code"}), floor=1)
